@@ -36,7 +36,7 @@ HEAD = ("From PT Require Import Base.Str Base.Codes Model.Types Model.Value Mode
 
 
 JUDGE2 = ("Definition judge2 (c : ctx * pz * term * str * list str) : N := let '(cx, p, t, exp, ev) := c in\n"
-          "  judge c + (match pcheck cx t exp with Some true => 6 | Some false => 4 | None => 0 end) + (if known t then 8 else 0).\n")
+          "  judge c + (match pcheck cx t exp (match p with Some _ => true | None => false end) ev with Some true => 6 | Some false => 4 | None => 0 end) + (if known t then 8 else 0).\n")
 
 
 def ctx_coq(c: SqlContext) -> str:
@@ -116,7 +116,7 @@ class Corr:
     def evaluate(self, shard_objs=60, pcheck=None):
         """Returns (agree, errors): agree is a list aligned with self.cases of booleans (model agrees) or None when
         a case file could not be evaluated.  With pcheck = (imports, coq_text) defining
-            pcheck : ctx -> term -> str -> option bool      (the property judged on the IMPLEMENTATION's text)
+            pcheck : ctx -> term -> str -> bool -> list str -> option bool   (the property judged on the IMPLEMENTATION's text; parameterised?, value identities)
             known  : term -> bool                           (inside a listed known-finding class)
         self.verdicts[i] = dict(agree, pcheck: True/False/None (not applicable), known) is filled as well."""
         by_obj = {}
